@@ -428,9 +428,17 @@ func TestVerif_C18TD(t *testing.T) {
 }
 
 // the same forced schedules, judged by C15's "nothing remains after a teardown during a slow callback" (Check/C15TdCheck.v)
+//
+// The step orders are the ones translator/lockskel extracted from this source tree for this run (lib/c15td.py hands their
+// Coq definitions over in VERIF_TD_ORDERS); every case carries them, so that the schedule is replayed on Model/Teardown.v
+// under exactly these orders and the hypotheses of the theorems of Properties/C15.v are evaluated on them.
 func TestVerif_C15TD(t *testing.T) {
-	tdTermHead = "TDO"
-	tdCampaign(t, "C15td", "C15TdCheck", "")
+	defs := os.Getenv("VERIF_TD_ORDERS")
+	if defs == "" {
+		t.Fatal("VERIF_TD_ORDERS is not set: the step orders of the source have not been extracted")
+	}
+	tdTermHead = "TDO addperm_ord addchan_ord"
+	tdCampaign(t, "C15td", "C15TdCheck", defs)
 }
 
 // tdTermHead: constructor (and, for C18, the step orders extracted from the source) of the recorded case
